@@ -163,7 +163,8 @@ Section Final.
      not take is outside working time or taken by another task - in the final ledger *)
   Theorem no_idle t r f e : leaf_dates final t = Some (f, e) -> t_need (task_of p t) <> 0 ->
     t_team (task_of p t) = [r] -> limits_of p t r = [] ->
-    exists b, b <= f /\ (t_pin (task_of p t) = None -> forall d, In d (t_deps (task_of p t)) ->
+    exists b, b <= f /\ (forall s, t_pin (task_of p t) = Some s -> b = s) /\
+                       (t_pin (task_of p t) = None -> forall d, In d (t_deps (task_of p t)) ->
                            exists s' e', dates p final (d_task d) = Some (s', e') /\
                                          (if d_onstart d then s' else e') + d_gap d <= b) /\
       forall x, b <= x -> x < e ->
@@ -172,7 +173,7 @@ Section Final.
   Proof.
     intros Ht Hn Hteam Hlim. destruct final_J as [rest HJ].
     destruct (j_good _ _ _ HJ t f e Ht) as [st0 b G1 G2 G3 G4 G5 G6 G7 G8 G9 G10].
-    exists b. split; [exact G3|]. split.
+    exists b. split; [exact G3|]. split; [exact G4|]. split.
     - intros Hpin d Hd. destruct (G5 Hpin) as [_ B]. destruct (B d Hd) as (x & Hx & Hle).
       pose proof (dep_time_stable p _ _ _ _ G1 Hx) as Hx'. unfold dep_time in Hx'.
       destruct (dates p (schedule p) (d_task d)) as [[s' e']|] eqn:E; [|discriminate].
